@@ -642,14 +642,17 @@ func (channel *Channel) nextConfirmDeliveryTag() uint64 {
 }
 
 // AddUnackedMessage add message to unacked queue
-func (channel *Channel) AddUnackedMessage(dTag uint64, cTag string, queue string, message *amqp.Message) {
+// The queue is handed in by the caller, which holds it: looking it up by name here would take the queue table lock
+// while a consumer's status lock is held - the reverse of the order in which a queue delete cancels its consumers.
+func (channel *Channel) AddUnackedMessage(dTag uint64, cTag string, queueName string, origin interface{}, message *amqp.Message) {
 	channel.ackLock.Lock()
 	defer channel.ackLock.Unlock()
+	qu, _ := origin.(*queue.Queue)
 	channel.ackStore[dTag] = &UnackedMessage{
 		cTag:   cTag,
 		msg:    message,
-		queue:  queue,
-		origin: channel.conn.GetVirtualHost().GetQueue(queue),
+		queue:  queueName,
+		origin: qu,
 	}
 	channel.metrics.Unacked.Counter.Inc(1)
 }
